@@ -122,7 +122,7 @@ F3b == { Case("F3", <<Rule("start", Cat(Un(o2, NT(n \o Suffix(op))), B)), Rule(n
            op \in UnaryOps, o2 \in UnaryOps, n \in {"gen_a_", "gen2_"} }
 
 \* several handles of both kinds in one directive, in every order
-F8b == { Case("F8", <<Rule("start", Alt(Alt(Cat(Cat(NT("start"), A), NT("start")), Cat(Cat(NT("start"), B), NT("start"))), C)),
+F8b == { Case("F8", <<Rule("start", Alt(Cat(Cat(NT("start"), A), NT("start")), Alt(Cat(Cat(NT("start"), B), NT("start")), C))),
                      Dir(a, [j \in 1..3 |-> hs[o[j]]])>>) :
            a \in {"left", "right"}, o \in { p \in [1..3 -> 1..3] : \A x, y \in 1..3 : x # y => p[x] # p[y] },
            hs \in { << HTerm("a", TRUE), HRule("start", Cat(Cat(NT("start"), A), NT("start"))), HRule("start", Cat(Cat(NT("start"), B), NT("start"))) >> } }
@@ -147,6 +147,17 @@ F9all == UNION { {
 F9 == { c \in F9all : Printable(c.decls[1].rhs[1]) }
 
 All == F9 \cup F8b \cup F3b \cup F8 \cup F7 \cup F1 \cup F2 \cup F2b \cup F2c \cup F2d \cup F3 \cup F4 \cup F6
+\* Guard of the generator itself: every right-hand side (of a rule or of a rule handle) must be a tree the printer writes
+\* without parentheses of its own - otherwise the printed text is the text of ANOTHER tree and every check that compares
+\* with the abstract tree would raise a false alarm.  A violation stops the generation (an infrastructure failure).
+RhsOk(rhs) == rhs = <<>> \/ Printable(rhs[1])
+DeclOk(d) == CASE d.k = "rule" -> RhsOk(d.rhs)
+               [] d.k = "dir"  -> \A j \in 1..Len(d.hs) : d.hs[j].k = "t" \/ RhsOk(d.hs[j].rhs)
+               [] OTHER        -> TRUE
+Unprintable == { c \in All : \E i \in 1..Len(c.decls) : ~DeclOk(c.decls[i]) }
+ASSUME Unprintable = {} \/ PrintT(<<"UNPRINTABLE", Unprintable>>)
+ASSUME Unprintable = {}
+
 ASSUME /\ ndJsonSerialize("gen_specs.ndjson", SetToSeq(All))
        /\ PrintT(<<"GENERATED", Cardinality(All), "F1", Cardinality(F1), "F2", Cardinality(F2) + Cardinality(F2b) + Cardinality(F2c) + Cardinality(F2d), "F3", Cardinality(F3), "F4", Cardinality(F4)>>)
 =============================================================================
